@@ -101,6 +101,22 @@ def judge(case):
                     v("caller-gradient-modified", f"[{mode}] the upstream gradient tensor supplied by the caller changed during backward")
                 if not np.array_equal(np.asarray(out.data), first, equal_nan=True):
                     v("result-modified-by-backward", f"[{mode}] the result's data changed during backward")
+                # an upstream gradient of the OTHER floating dtype (a float64 seed for a float32 result and vice versa) is the
+                # caller's tensor just the same: neither its values nor its dtype may change
+                if out.dtype.kind == "f" and mode == "separate":
+                    other = np.float32 if out.dtype == np.float64 else np.float64
+                    try:
+                        cn.COPY = False
+                        o2, _ = fam.run_lib(case, ops, rg, copy=False) if fam is ct else fam.run_lib(case, ops, rg)
+                    finally:
+                        cn.COPY = True
+                    if o2.requires_grad:
+                        g2 = sg.Tensor(np.asarray(values.dense_g(o2.shape), dtype=other))
+                        s2 = (np.asarray(g2.data).tobytes(), str(g2.dtype))
+                        try: o2.backward(g2)
+                        except Exception: pass
+                        if (np.asarray(g2.data).tobytes(), str(g2.dtype)) != s2:
+                            v("caller-gradient-modified", f"[{mode}] an upstream gradient of dtype {np.dtype(other).name} for a {o2.dtype} result was changed by backward (now {g2.dtype})")
             # repeat on unchanged operands: bit-identical
             cn.COPY = False
             try:
